@@ -22,7 +22,7 @@ CHECKS = {
  "C18": dict(
    level="exploration",
    text="Every corpus face without AAT substitution (672) x {rule witnesses: the rune sequences spelling every ligature, context / chained-context rule (3 formats, incl. rules without nested lookups), reverse chaining rule, kerning pair per value-record signature (incl. device/variation-only records), cursive and mark attachment of the face's own GSUB/GPOS lookups and kern pairs, alone and embedded in neutral context; every string up to the tier's length over the font-derived alphabet and the script packs} x {native, opposite direction} x cluster levels 0/1 x {no feature, liga off, kern off, first optional feature} x {default instance, per-axis max/min}. For every shaped result every subset of the safe boundaries (<= 3 boundaries; else every single cut + all cuts): pieces shaped through Buffer.AddRunes(text, start, len) with Bot/Eot cleared at interior ends, concatenated in visual order, compared glyph by glyph (id, cluster, advances, offsets) with the whole-text result; defined glyph flags uniform per cluster.",
-   note="8 known findings (known_findings.jsonl): non-native directions per complex shaper and three classes of Indic broken/decomposable sequences, all with identical whole/piece results in libharfbuzz 6.0.0 (cmd/hbcut), i.e. behaviour of the reference shaper that C05 requires. Violation keys carry shaper class, native/non-native direction and the lookup type of the witness, so other violations are still reported. Witnesses per lookup and pairs per signature are capped per tier (counted in the evidence).",
+   note="13 known findings (known_findings.jsonl): non-native directions (one key for the Arabic class, one per kind of input for the other shapers) and three classes of Indic broken/decomposable sequences, all with identical whole/piece results in libharfbuzz 6.0.0 (cmd/hbcut), i.e. behaviour of the reference shaper that C05 requires. Violation keys carry shaper class, native/non-native direction and the lookup type of the witness, so other violations are still reported. Witnesses per lookup and pairs per signature are capped per tier (counted in the evidence).",
    technique="bounded exhaustive enumeration of inputs (rule-witness quotient of the font's own lookups + alphabets) x configurations x every safe cut set, differential oracle whole vs pieces (E1)",
    design="1/C18 and 6.8", engine="E1 enum"),
  "C09": dict(
